@@ -271,8 +271,7 @@ Record adp_meta : Type := mk_adp_meta {
 (* varintAdaptiveMaxSize (after fix F09).  Worst case PFOR with every value an
    exception: min 9 + width 1 + count 5 + 8 per slot + exception count 5 +
    (index 5 + value 9) per exception, plus the type byte. *)
-Definition adp_max_size (count : N) : N :=
-  if count =? 0 then 1 else u64 (1 + 20 + mul64 count 22).
+Definition adp_max_size (count : N) : N := u64 (1 + 20 + mul64 count 22).
 
 (* varintFORMeta forMeta = {0} *)
 Definition adp_for_meta_zero : for_meta := mk_for_meta 0 0 0 0 0 0.
